@@ -2488,6 +2488,21 @@ def r108(P, u, T, rep, dres):
              'front of the main file, each taken as given (working directory) if it exists there, else from the include path, else diagnosed; '
              '-D/-U act in command-line order', floor=FLOORS['R10.8'])
     fnline = u.fn('preprocess2').line
+    # who decides the form: whether an #include is the quoted or the angle form is known only after its operand has been macro-expanded, i.e. inside the
+    # filename reader; a comparison of a token with `<` anywhere else in the preprocessor decides it from the directive's own (unexpanded) token
+    early = []
+    for f_, fd_ in sorted(u.functions.items()):
+        if f_ == 'read_include_filename':
+            continue
+        for c_ in fd_.calls('equal'):
+            a_ = c_.args()
+            if len(a_) > 1 and a_[1].str_value() == '<':
+                early.append((f_, c_.line))
+    if 'read_include_filename' in u.functions:
+        rep.ob('R10.8', '%s:include-form:decided-by-the-filename-reader-only' % U, not early,
+               '%s compares a token with `<` (line %s): the form of an #include is then decided from the unexpanded operand, so `#define H <stdio.h>` / `#include H` is '
+               'searched like a quoted include (next to the including file first) and a macro that expands to "file" like an angle one' % (
+                   ', '.join(sorted({e[0] for e in early})) + '()', ', '.join(str(e[1]) for e in early)), where='%s:%d' % (U, early[0][1] if early else fnline))
     sig_why = _rif_interface(u)
     if sig_why:
         # the arms are judged through the contract of read_include_filename (name returned, form through the flag parameter)
